@@ -492,6 +492,11 @@ pub fn on_drop(wd: &World, n: &Node) {
                     wd.err("C04", "rc_drop_with_handles", "rc_drop_while_handles_exist".into(), format!("#{} was dropped by reference counting although {} Cc pointers to it still exist (count too low)", id, hmin));
                 }
                 #[cfg(feature = "finalization")]
+                if o.armed && !wd.is_degraded() && !wd.in_collection.get() {
+                    // the same observation in C04's terms: the last-owner drop did not finalize an object that was due
+                    wd.err("C04", "rc_drop_without_finalize", "last_owner_drop_skipped_finalizer".into(), format!("the last Cc to #{} was dropped outside a collection and its value destroyed without the finalization that was due", id));
+                }
+                #[cfg(feature = "finalization")]
                 if o.armed && !wd.is_degraded() {
                     wd.err("C05", "drop_without_finalize", format!("dropped_unfinalized:{}", if by_collector { "collector" } else { "rc" }), format!("#{} was dropped without having been finalized although finalization was due", id));
                 }
